@@ -180,13 +180,20 @@ func runCorpusHistories(rep *core.Report) {
 		rep.Extra["corpus_cache_full_events"] = fulls.Load()
 	}()
 	big := corpus(24, 30000, "ab")
-	for _, pat := range []string{`[ab]*a[ab]{14}c`, `(a|b)*a(a|b){13}b`, `[ab]*b[ab]{15}`} {
+	bigc := corpus(60, 6000, "abababababababababc") // many matches: FindAll / Count restart the search at offsets > 0 on the aged caches
+	for pi, pat := range []string{`[ab]*a[ab]{14}c`, `(a|b)*a(a|b){13}b`, `[ab]*b[ab]{15}`, `a[ab]{14}[cd]`, `b[ab]{12}(c|d)`} {
+		big := big
+		if pi >= 3 {
+			big = bigc
+		}
 		aged, err := coregex.Compile(pat)
 		if err != nil {
 			continue
 		}
 		for hi, h := range big {
-			a := histAPIs[hi%3]
+			// Match / FindIndex / FindSubmatchIndex / FindAllIndex / Count: the last two restart the search at offsets > 0
+			// on the aged caches (start kinds other than the first search's)
+			a := histAPIs[hi%5]
 			got := a.fn(aged, h)
 			fresh, _ := coregex.Compile(pat)
 			want := a.fn(fresh, h)
